@@ -443,12 +443,32 @@ def runAccept (tiS lineS extS implS goS : String) : Result :=
            let inMs := LineSpec.normDup (Json.unmarshal line).1
            cols.any fun c =>
              match c with
-             | .leaf n .date _ =>
+             | .leaf n .date .none =>   -- with a raw type the column converts with cast.To(T, ·), not as a date
                (match LineSpec.lookupJV inMs n with
                 | some (.str s) => !(Time.parseDateOk s) && (IntText.parseInt0 s 64).isNone
                 | _ => false)
              | _ => false
          | none => false)
+      -- …and a number whose magnitude no float32 has (strconv: a finite float64, a range error at 32 bits) under a
+      -- column declared float32 does not convert: there is no float32 to hold — whatever the format (every format but
+      -- binary hands the text or the number to cast.To(float32, ·))
+      let badFloat : Bool := implOk && recognised &&
+        (match colsOf tiS with
+         | some cols =>
+           let inMs := LineSpec.normDup (Json.unmarshal line).1
+           cols.any fun c =>
+             match c with
+             | .leaf n f .f32 =>
+               f != .binary &&
+               (match LineSpec.lookupJV inMs n with
+                | some (.str t) | some (.num t) =>
+                  (match env.ext.parseFloat t 64, env.ext.parseFloat t 32 with
+                   | some (some b64), some none => (b64 / 2 ^ 52) % 2048 != 2047
+                   | _, _ => false)
+                | _ => false)
+             | _ => false
+         | none => false)
+      if badFloat then ⟨"P", s!"accept ti=[{tiS}] {lineS}: impl [{implS}] violates C16: key=accepted-number-no-float32-holds"⟩ else
       if badDate then ⟨"P", s!"accept ti=[{tiS}] {lineS}: impl [{implS}] violates C16: key=accepted-unconvertible-date"⟩ else
       match mOk with
       | none => ⟨"X", "model abstains"⟩
